@@ -51,9 +51,9 @@ class P3(P1, P2):           # multiple inheritance
     pass
 
 
-# interface by ABC registration.  Its class NAME is that of an unrelated protocol above, in another module: offers are
+# interface by ABC registration.  Its class NAME (and module) is that of an unrelated protocol above: offers are
 # registered per protocol, and two protocols are different things however they are called
-I4 = abc.ABCMeta("P0", (abc.ABC,), {"__module__": "props_c17_elsewhere", "__qualname__": "P0"})
+I4 = abc.ABCMeta("P0", (abc.ABC,), {"__module__": __name__, "__qualname__": "P0"})
 
 
 I4.register(P2)
